@@ -731,6 +731,224 @@ func boxHistories() {
 	}
 }
 
+// ---- nested BoxLayout edit histories ----
+//
+// outer (horizontal) = [A pref 2 fill 0 | inner (vertical) fill 0 | spacer pref 1 fill 1];
+// the inner layout is edited (Add / Insert / Remove of leaves) while it is attached and laid
+// out; after every edit the outer layout is drawn WITHOUT an outer Resize. Oracles: (1) the
+// inner layout must be given at least its preferred width (the widest leaf) when the outer
+// extent suffices, (2) differential: what every leaf paints must equal what the same tree
+// paints when it is built from scratch and laid out (edits are "re-done" layouts).
+type nleaf struct {
+	id     rune
+	pw, ph int
+}
+
+type nsys struct {
+	parent *recView
+	outer  *views.BoxLayout
+	inner  *views.BoxLayout
+	a, sp  *recWidget
+	leaves []*recWidget
+	model  []nleaf
+	ext    int
+	next   int
+	ops    []nop
+}
+
+type nop struct {
+	kind string
+	a    int
+	pw   int
+}
+
+func (o nop) String() string {
+	switch o.kind {
+	case "Add":
+		return fmt.Sprintf("inner.AddWidget(leaf %dx1)", o.pw)
+	case "Insert":
+		return fmt.Sprintf("inner.InsertWidget(%d, leaf %dx1)", o.a, o.pw)
+	case "Remove":
+		return fmt.Sprintf("inner.RemoveWidget(#%d)", o.a)
+	case "Resize":
+		return fmt.Sprintf("parent width -> %d; outer.Resize()", o.a)
+	}
+	return "outer.Draw()"
+}
+
+func buildNested(ext int, model []nleaf) (*recView, *views.BoxLayout, *views.BoxLayout, *recWidget, *recWidget, []*recWidget) {
+	parent := &recView{w: ext, h: 5}
+	outer := views.NewBoxLayout(views.Horizontal)
+	outer.SetView(parent)
+	a := &recWidget{id: 'A', pw: 2, ph: 1}
+	inner := views.NewBoxLayout(views.Vertical)
+	sp := &recWidget{id: 'Z', pw: 1, ph: 1}
+	outer.AddWidget(a, 0)
+	outer.AddWidget(inner, 0)
+	outer.AddWidget(sp, 1)
+	var leaves []*recWidget
+	for _, l := range model {
+		rw := &recWidget{id: l.id, pw: l.pw, ph: l.ph}
+		inner.AddWidget(rw, 0)
+		leaves = append(leaves, rw)
+	}
+	return parent, outer, inner, a, sp, leaves
+}
+
+func paint(parent *recView, outer *views.BoxLayout) map[[2]int]rune {
+	parent.writes = parent.writes[:0]
+	outer.Draw()
+	owner := map[[2]int]rune{}
+	for _, wr := range parent.writes {
+		if wr.x < 0 || wr.y < 0 || wr.x >= parent.w || wr.y >= parent.h {
+			continue
+		}
+		owner[[2]int{wr.x, wr.y}] = wr.r
+	}
+	return owner
+}
+
+func (s *nsys) Close() {}
+func (s *nsys) Key() string {
+	var sb strings.Builder
+	fmt.Fprintf(&sb, "%d|", s.ext)
+	for _, l := range s.model {
+		fmt.Fprintf(&sb, "%dx%d;", l.pw, l.ph)
+	}
+	iw, ih := s.inner.Size()
+	ow, oh := s.outer.Size()
+	fmt.Fprint(&sb, iw, ih, ow, oh)
+	for _, k := range s.leaves {
+		if vp, ok := k.view.(*views.ViewPort); ok {
+			a, b, c, d := vp.GetPhysical()
+			fmt.Fprint(&sb, a, b, c, d, ",")
+		}
+	}
+	return sb.String()
+}
+
+func (s *nsys) Apply(i int) (sig, desc string) {
+	o := s.ops[i]
+	defer func() {
+		if r := recover(); r != nil {
+			sig, desc = "box-nested-panic:"+o.kind, fmt.Sprintf("%v panicked: %v", o, r)
+		}
+	}()
+	switch o.kind {
+	case "Add", "Insert":
+		if len(s.model) >= 3 {
+			return "", ""
+		}
+		l := nleaf{id: rune('b' + s.next%20), pw: o.pw, ph: 1}
+		s.next++
+		rw := &recWidget{id: l.id, pw: l.pw, ph: l.ph}
+		ix := len(s.model)
+		if o.kind == "Add" {
+			s.inner.AddWidget(rw, 0)
+		} else {
+			s.inner.InsertWidget(o.a, rw, 0)
+			ix = o.a
+			if ix > len(s.model) {
+				ix = len(s.model)
+			}
+		}
+		s.model = append(s.model, nleaf{})
+		copy(s.model[ix+1:], s.model[ix:])
+		s.model[ix] = l
+		s.leaves = append(s.leaves, nil)
+		copy(s.leaves[ix+1:], s.leaves[ix:])
+		s.leaves[ix] = rw
+	case "Remove":
+		if o.a >= len(s.model) {
+			return "", ""
+		}
+		s.inner.RemoveWidget(s.leaves[o.a])
+		s.model = append(s.model[:o.a:o.a], s.model[o.a+1:]...)
+		s.leaves = append(s.leaves[:o.a:o.a], s.leaves[o.a+1:]...)
+	case "Resize":
+		s.ext = o.a
+		s.parent.w = o.a
+		s.outer.Resize()
+	}
+	got := paint(s.parent, s.outer)
+	ctx := fmt.Sprintf("after %v (outer width %d, inner leaves %v)", o, s.ext, s.model)
+	// (1) preferred extent of the inner layout
+	want := 0
+	for _, l := range s.model {
+		if l.pw > want {
+			want = l.pw
+		}
+	}
+	if 2+want+1 <= s.ext {
+		for _, l := range s.model {
+			n := 0
+			for p, r := range got {
+				if r == l.id && p[1] >= 0 {
+					n++
+				}
+			}
+			cols := map[int]bool{}
+			for p, r := range got {
+				if r == l.id {
+					cols[p[0]] = true
+				}
+			}
+			if len(cols) < l.pw {
+				return "box-nested-preferred", fmt.Sprintf("%s: leaf %c of the inner layout is %d columns wide, its preferred width is %d and the outer layout has room (2+%d+1 <= %d)", ctx, l.id, len(cols), l.pw, want, s.ext)
+			}
+		}
+	}
+	// (2) the same tree built from scratch
+	fp, fo, _, _, _, _ := buildNested(s.ext, s.model)
+	fo.Resize()
+	fresh := paint(fp, fo)
+	if len(fresh) != len(got) {
+		return "box-nested-differs", fmt.Sprintf("%s: %d cells painted, the same tree built from scratch paints %d", ctx, len(got), len(fresh))
+	}
+	for p, r := range fresh {
+		if got[p] != r {
+			return "box-nested-differs", fmt.Sprintf("%s: cell (%d,%d) belongs to %q, in the same tree built from scratch to %q", ctx, p[0], p[1], got[p], r)
+		}
+	}
+	return "", ""
+}
+
+func nestedHistories() {
+	var ops []nop
+	for _, pw := range []int{1, 3, 6} {
+		ops = append(ops, nop{kind: "Add", pw: pw})
+	}
+	ops = append(ops, nop{kind: "Insert", a: 0, pw: 4}, nop{kind: "Insert", a: 1, pw: 2}, nop{kind: "Remove", a: 0}, nop{kind: "Remove", a: 1},
+		nop{kind: "Resize", a: 5}, nop{kind: "Resize", a: 12}, nop{kind: "Draw"})
+	d := 3
+	if hc.Thorough() {
+		d = 5
+	}
+	cfg := &seq.Config{Name: "boxlayout-nested-edits", NOps: len(ops), Depth: d,
+		OpName: func(i int) string { return ops[i].String() },
+		New: func() seq.Sys {
+			s := &nsys{ext: 12, ops: ops}
+			s.parent, s.outer, s.inner, s.a, s.sp, s.leaves = buildNested(12, nil)
+			s.outer.Resize()
+			paint(s.parent, s.outer)
+			return s
+		},
+		Mine: hc.Mine, Shard0: *hc.Shard == 0, ShardDepth: 2, Stop: w.Expired,
+		OnViolation: func(sig, desc string, hist []int) {
+			var names []string
+			for _, o := range hist {
+				names = append(names, ops[o].String())
+			}
+			w.Violation(sig, "boxlayout-nested-edits: "+desc+"\n history: "+strings.Join(names, "; "), map[string]interface{}{"scenario": "boxlayout-nested-edits", "ops": hist})
+		},
+	}
+	st := seq.Explore(cfg)
+	w.R.States += st.States
+	w.R.Transitions += st.Transitions
+	w.R.Executions += st.Transitions
+	w.R.Scenarios["boxlayout-nested-edits"] = st.Summary()
+}
+
 func nested() {
 	if *hc.Shard != 0 {
 		return
@@ -818,6 +1036,7 @@ func main() {
 	boxStatic()
 	boxHistories()
 	nested()
+	nestedHistories()
 	for i := int64(0); i < w.R.States; i++ {
 		w.Distinct(uint64(*hc.Shard)<<40 | uint64(i))
 	}
